@@ -1,7 +1,7 @@
 /- REGENERATED on every run by `corr C13.tables` from the code in /repo. Do not edit. -/
 namespace Generated.C13
 def protoFields : List String := ["Addr", "Timestamp", "State", "Tokens", "Zone", "RegisteredTimestamp", "Id", "ReadOnlyUpdatedTimestamp", "ReadOnly", "Versions"]
-def comparedFields : List String := ["Addr", "Zone", "RegisteredTimestamp", "ReadOnly", "ReadOnlyUpdatedTimestamp", "Tokens", "Timestamp", "State"]
+def comparedFields : List String := ["Addr", "Zone", "RegisteredTimestamp", "ReadOnly", "ReadOnlyUpdatedTimestamp", "Versions", "Tokens", "Timestamp", "State"]
 def refreshedFields : List String := ["State", "Timestamp"]
 def refreshedFieldsLookback : List String := ["State", "Timestamp"]
 end Generated.C13
